@@ -113,11 +113,12 @@ def r122(ctx, R):
                 right = c05.single_def(f, src(dr))
                 why = '%s = %s' % (arg.id, src(d.value))
                 if left is not None and right is not None:
-                    ls, rs = src(left.value), src(right.value)
+                    ls = src(C.inline_locals(f, left.value))
+                    rs = src(C.inline_locals(f, right.value))
                     ok_l = '.uuid' in ls and '.values()' in ls and not \
-                        _has_filter(left.value)
+                        _has_filter(C.inline_locals(f, left.value))
                     ok_r = '.consumer.uuid' in rs and f.params[1] in rs and \
-                        _filter_is_positive(right.value)
+                        _filter_is_positive(C.inline_locals(f, right.value))
                     okarg = ok_l and ok_r
                     why += '; %s; %s' % (ls[:50], rs[:60])
         R.ob('R12.2', '_set_allocations:cleanup-argument', okarg,
@@ -472,8 +473,8 @@ def r127(ctx, R):
         names = set()
         neq = False
         for d in conj:
-            if isinstance(d, ast.Name):
-                names.add(d.id)
+            if isinstance(d, (ast.Name, ast.Attribute)):
+                names.add(src(d))
             if isinstance(d, ast.Compare) and isinstance(
                     d.ops[0], ast.NotEq) and src(
                         d.comparators[0]) == '%s.consumer_type_id' % c:
@@ -483,9 +484,16 @@ def r127(ctx, R):
                and src(x.func) == '%s.update' % c]
         ok = neq and len(names) == 1 and len(conj) <= 2 and len(upd) == 1
         if ok:
-            d = c05.single_def(f, list(names)[0])
-            ok = d is not None and src(d.value).endswith(
-                '.consumer_type_id')
+            # the requested type: a local bound to, or directly, the
+            # consumer_type_id of the request attributes
+            nm = list(names)[0]
+            if '.' in nm:
+                ok = nm.endswith('.consumer_type_id') and not nm.startswith(
+                    c + '.')
+            else:
+                d = c05.single_def(f, nm)
+                ok = d is not None and src(d.value).endswith(
+                    '.consumer_type_id')
         why = 'condition %s' % src(t)
     R.ob('R12.7', 'update_consumers:type-differs', ok,
          'the consumer type is rewritten when the request carries a type '
